@@ -433,6 +433,41 @@ def sweep(fx, R):
                                'copy (an element of a vector, a converter returned by value, a member re-assigned later) `%s` still calls into the ORIGINAL object - it reads the original\'s members at call time '
                                '(another ellipsoid once the original is re-assigned, freed memory once it is destroyed): what the copy returns is not a function of its own state and its argument' % (
                                    fld_, g['name'], fld_), fx.rel(lam.get('loc') or g['loc']), 'E-STATE')
+    # ---- H12 (pointers): a pointer member (or table of pointers) set to the address of ANOTHER MEMBER of the same object - by a default member initialiser, a constructor or a method - in a class whose
+    # copy operations are the compiler-generated ones: the copy's pointers still point into the original
+    for cls in classes:
+        rec = fx.records.get(cls) or {}
+        ptr_fields = {fl_['name']: fl_ for fl_ in rec.get('fields', []) if '*' in (fl_.get('t') or {}).get('s', '') and not (fl_.get('t') or {}).get('s', '').startswith('std::')}
+        if not ptr_fields:
+            continue
+        copy = [m_ for m_ in rec.get('methods', []) if m_.get('copyctor')]
+        user_copy = any(not m_.get('implicit') and not m_.get('deleted') for m_ in copy)
+        deleted = bool(copy) and all(m_.get('deleted') for m_ in copy)
+        sites = [(n_, fl_['init'], (fl_['init'].get('loc') if isinstance(fl_['init'], dict) else None) or rec.get('loc'), 'its default member initialiser') for n_, fl_ in ptr_fields.items() if fl_.get('init') is not None]
+        for g in [g for g in fx.functions.values() if g.get('cls') == cls and g.get('body') is not None and not g.get('copyctor')]:
+            sites += [(i_['field'], i_['e'], g['loc'], 'the constructor') for i_ in g.get('inits', []) if i_.get('field') in ptr_fields and i_.get('e') is not None]
+            sites += [(bm['name'], rhs, g['loc'], g['name'] + '()') for (bm, rhs) in stores_in(g['body']) if bm.get('cls') == cls and bm.get('name') in ptr_fields]
+        done = set()
+        for (fld_, e_, loc_, where_) in sites:
+            own = [strip_casts(y['e']) for y in walk(e_) if isinstance(y, dict) and y.get('k') == 'Un' and y.get('op') == '&' and strip_casts(y['e']).get('k') == 'Member' and strip_casts(y['e']).get('field')
+                   and strip_casts(y['e']).get('cls') == cls and strip_casts(strip_casts(y['e']).get('base') or {}).get('k') in ('This', None)]
+            if not own or fld_ in done:
+                continue
+            used = any(isinstance(y, dict) and y.get('k') == 'Member' and y.get('name') == fld_ and y.get('cls') == cls for f_ in fns if f_.get('cls') == cls and not f_.get('ctor') for y in walk(f_.get('body')))
+            if not used:
+                continue
+            done.add(fld_)
+            inst = '%s:self-pointer:%s' % (cls, fld_)
+            names_ = ', '.join(sorted({o_['name'] for o_ in own})[:4])
+            if deleted:
+                R.holds('H12', inst, 'points to %s of the same object; the class cannot be copied' % names_, fx.rel(loc_) if loc_ else None, 'E-STATE')
+            elif user_copy:
+                R.undecided('H12', inst, 'pointer member set to the address of %s of the same object; the user-provided copy constructor is not followed' % names_)
+            else:
+                R.violated('H12', inst, '`%s` is set by %s to the address of `%s`, member(s) of the SAME object, and the copy operations are the compiler-generated ones: they copy the pointer value, so in a copy '
+                           '(assignment, an element of a vector, pass or return by value) `%s` still points into the ORIGINAL object - the functions that go through it read the original\'s %s (other angles once '
+                           'the original is re-initialised, freed memory once it is destroyed) while the other accessors read the copy\'s own: the results of one object no longer agree with each other' % (
+                               fld_, where_, names_, fld_, names_), fx.rel(loc_) if loc_ else None, 'E-STATE')
     # ---- H11: a member function this property reads that redefines, with the same signature, a NON-virtual member of a public base: through a base reference the base version runs --------
     for cls in classes:
         rec = fx.records.get(cls) or {}
